@@ -8,6 +8,8 @@ import (
 	"context"
 	"fmt"
 	"math/rand"
+	"runtime"
+	"strings"
 	"sync"
 	"time"
 
@@ -92,6 +94,7 @@ type party struct {
 	jitter bool
 
 	mu     sync.Mutex
+	gate   *updGate                          // the next update request waits here for the harness' decision
 	accts  [][]byte                          // marshalled addresses the wallet can unlock
 	called map[client.ProposalID]int         // recording ProposalHandler: invocations per proposal ID
 	plans  map[client.ProposalID]*acceptPlan // proposals to accept (positive runs)
@@ -189,9 +192,39 @@ func (p *party) libraryAccept(prop client.ChannelProposal, part map[wallet.Backe
 	panic("unknown proposal type")
 }
 
+// updGate lets the harness hold an update request in the user's update handler: the client holds the
+// channel's machine mutex while it waits for the user's decision.
+type updGate struct {
+	entered chan struct{} // closed when the update handler runs (the mutex is held from here on)
+	decide  chan bool     // true: accept, false: reject
+}
+
+func (p *party) setGate() *updGate {
+	g := &updGate{entered: make(chan struct{}), decide: make(chan bool, 1)}
+	p.mu.Lock()
+	p.gate = g
+	p.mu.Unlock()
+	return g
+}
+
 func (p *party) HandleUpdate(_ *channel.State, _ client.ChannelUpdate, r *client.UpdateResponder) {
+	p.mu.Lock()
+	g := p.gate
+	p.gate = nil
+	p.mu.Unlock()
 	ctx, cancel := context.WithTimeout(context.Background(), opTimeout)
 	defer cancel()
+	if g != nil {
+		close(g.entered)
+		select {
+		case ok := <-g.decide:
+			if !ok {
+				_ = r.Reject(ctx, "rejected by the harness")
+				return
+			}
+		case <-time.After(opTimeout):
+		}
+	}
 	_ = r.Accept(ctx)
 }
 
@@ -330,4 +363,112 @@ func (w *world) deliver(sender map[wallet.BackendID]wire.Address, prop client.Ch
 		return "called", ""
 	}
 	return "dropped", ""
+}
+
+// goroutineIn reports whether some goroutine of the process is inside the named function.
+func goroutineIn(fn string) bool {
+	buf := make([]byte, 1<<20)
+	for {
+		n := runtime.Stack(buf, true)
+		if n < len(buf) {
+			return strings.Contains(string(buf[:n]), fn)
+		}
+		buf = make([]byte, 2*len(buf))
+	}
+}
+
+// busyRes is the observation of one arrival-while-locked delivery.
+type busyRes struct {
+	outcome  string // called | dropped | panic | timeout
+	detail   string
+	early    bool  // handleChannelProposal returned while the update still held the parent's mutex
+	blocked  bool  // the handler goroutine was seen waiting in prepareChannelOpening
+	updErr   error // result of the peer's Channel.Update
+	lockFree bool  // the parent's machine mutex could be taken afterwards
+	skipped  string
+}
+
+// deliverBusy: the peer's update on the parent channel is held in party 0's update handler (the
+// client holds the parent's machine mutex for the user's decision, as for any update in flight);
+// the puppet publishes prop; once the handler goroutine waits for the mutex (or has returned) the
+// update is decided, which moves the parent to its fully signed next state (or leaves it) and
+// releases the mutex; then the handler goroutine runs on.
+func (w *world) deliverBusy(sender map[wallet.BackendID]wire.Address, prop client.ChannelProposal,
+	peerCh, ownCh *client.Channel, upd func(*channel.State), accept bool) busyRes {
+	a := w.parties[0]
+	before := a.calledCount(prop.Base().ProposalID)
+	g := a.setGate()
+	updDone := make(chan error, 1)
+	go func() {
+		ctx, cancel := context.WithTimeout(context.Background(), opTimeout)
+		defer cancel()
+		updDone <- peerCh.Update(ctx, upd)
+	}()
+	select {
+	case <-g.entered:
+	case err := <-updDone:
+		a.mu.Lock()
+		a.gate = nil
+		a.mu.Unlock()
+		return busyRes{skipped: fmt.Sprintf("the update did not reach the update handler: %v", err)}
+	case <-time.After(opTimeout):
+		return busyRes{skipped: "the update did not reach the update handler in time"}
+	}
+	// the parent's mutex is held now
+	res := busyRes{}
+	ctx, cancel := context.WithTimeout(context.Background(), opTimeout)
+	defer cancel()
+	if err := w.bus.Publish(ctx, &wire.Envelope{Sender: sender, Recipient: a.addr, Msg: prop}); err != nil {
+		g.decide <- accept
+		<-updDone
+		return busyRes{skipped: "publish: " + err.Error()}
+	}
+	var evt *doneEvt
+	deadline := time.Now().Add(20 * time.Second)
+	for evt == nil && !res.blocked && time.Now().Before(deadline) {
+		select {
+		case e := <-a.done:
+			evt = &e
+		default:
+			if goroutineIn("client.(*Client).prepareChannelOpening") {
+				res.blocked = true
+			} else {
+				time.Sleep(100 * time.Microsecond)
+			}
+		}
+	}
+	res.early = evt != nil
+	g.decide <- accept
+	select {
+	case res.updErr = <-updDone:
+	case <-time.After(opTimeout):
+		res.updErr = fmt.Errorf("update did not return")
+	}
+	if evt == nil {
+		select {
+		case e := <-a.done:
+			evt = &e
+		case <-time.After(opTimeout):
+			res.outcome, res.detail = "timeout", "handleChannelProposal did not return"
+		}
+	}
+	if evt != nil {
+		switch {
+		case evt.panicked != nil:
+			res.outcome, res.detail = "panic", fmt.Sprint(evt.panicked)
+		case a.calledCount(prop.Base().ProposalID) > before:
+			res.outcome = "called"
+		default:
+			res.outcome = "dropped"
+		}
+	}
+	// afterwards the parent must be unlocked again
+	free := make(chan struct{})
+	go func() { ownCh.Phase(); close(free) }()
+	select {
+	case <-free:
+		res.lockFree = true
+	case <-time.After(20 * time.Second):
+	}
+	return res
 }
